@@ -1,0 +1,37 @@
+//go:build verif && !tinygo && !coraza.no_memoize
+
+// Verification hook of property C13 (add-only; compiled with -tags verif only): a read-only
+// snapshot of the process-wide cache and the owner id of a Memoizer.
+package memoize
+
+import "sort"
+
+// VerifEntry is one cache entry as seen through the map at the time of the snapshot.
+type VerifEntry struct {
+	Key     string
+	Value   any
+	Owners  []uint64
+	Deleted bool
+}
+
+// VerifSnapshot returns the entries reachable through the cache map, sorted by key.
+func VerifSnapshot() []VerifEntry {
+	var out []VerifEntry
+	cache.Range(func(key, value any) bool {
+		e := value.(*entry)
+		e.mu.Lock()
+		ve := VerifEntry{Key: key.(string), Value: e.value, Deleted: e.deleted}
+		for o := range e.owners {
+			ve.Owners = append(ve.Owners, o)
+		}
+		e.mu.Unlock()
+		sort.Slice(ve.Owners, func(i, j int) bool { return ve.Owners[i] < ve.Owners[j] })
+		out = append(out, ve)
+		return true
+	})
+	sort.Slice(out, func(i, j int) bool { return out[i].Key < out[j].Key })
+	return out
+}
+
+// VerifOwnerID returns the owner id the Memoizer registers on the entries it touches.
+func (m *Memoizer) VerifOwnerID() uint64 { return m.ownerID }
